@@ -15,9 +15,8 @@ ASSUMPTIONS = [
     "element set.pop() returns, the order `for w in adj[v]` walks the set) are an oracle parameter of the mirror and "
     "kcore_peeling_correct holds for every admissible oracle; the driver runs the first-element oracle",
     "the low-link DFS mirror (articulation_points / bridges, mirroring the repaired code that walks the symmetrised "
-    "adjacency) has no for-all-inputs correctness theorem (lowlink_correct is the named missing piece, "
-    "lowlink_partial is proved): on every explored input its output, the implementation's output and the "
-    "definitions evaluated in Lean (cutVerticesDef / bridgesDef over the proved component count) are compared",
+    "adjacency) is proved correct for every input (lowlink_correct); the recursion of the Python code is modelled "
+    "with fuel n+1 (proved sufficient), Python's recursion limit is not modelled",
     "PageRank/Louvain theorems are about the Rat instantiation of the one model text; the Float instantiation "
     "(CPython 3.12 compensated sum modelled by pySumF) is tied by bit-equality of the returned scores and by "
     "equality of the returned partition; IEEE rounding itself is outside the theorems",
@@ -377,7 +376,7 @@ def judge(ctx, case, out, reply):
                 ctx.count("r_trace:louvain_partition_equal")
     ctx.cov["cert_checked_impl"] = sum(v for k, v in ctx.cov["histogram"].items() if k.startswith("cert:"))
     ctx.cov["r_trace_agree"] = sum(v for k, v in ctx.cov["histogram"].items() if k.startswith("r_trace:"))
-    ctx.cov["missing_theorems"] = ["lowlink_correct (low-link DFS returns exactly cutVerticesDef / bridgesDef)"]
+    ctx.cov["missing_theorems"] = []
     ctx.count(f"components={min(ncomp, 4)}{'+' if ncomp >= 4 else ''}")
     ctx.count(f"cut_vertices={min(len(d_ap), 3)}")
     ctx.count(f"bridges={min(len(d_br), 3)}")
@@ -388,14 +387,89 @@ def judge(ctx, case, out, reply):
                                  "impl_ap": o["articulation_points"], "impl_bridges": o["bridges"]})
 
 
-def run_cases(ctx, cases):
+class Probe:
+    """Stands in for ctx while judging: records the failed clauses instead of reporting them."""
+
+    def __init__(self, real=None):
+        self.real = real
+        self.fails = []
+        self.cov = real.cov if real is not None else {"histogram": {}}
+
+    def fail(self, function, klass, what, replay):
+        self.fails.append((function, klass, what, replay))
+
+    def tdiv(self, function, detail):
+        if self.real is not None:
+            self.real.tdiv(function, detail)
+
+    def count(self, key, n=1):
+        if self.real is not None:
+            self.real.count(key, n)
+
+    def case(self, canon, nontrivial, sample=None):
+        if self.real is not None:
+            self.real.case(canon, nontrivial, sample)
+
+
+def evaluate(cases):
     outs = run_pool(impl, cases, timeout=30.0)
-    # a Louvain run that never leaves `while improved` would hit the wall-clock limit
     reqs = [to_request(c, o) for c, o in zip(cases, outs)]
     replies = Driver("Net").run(reqs, chunks=16)
-    for c, o, rp in zip(cases, outs, replies):
+    for c, rp in zip(cases, replies):
         if rp and rp[0] == "error":
             raise core.Infra(f"model rejected request: {rp} for {c}")
+    return outs, replies
+
+
+def shrink_candidates(case):
+    """One-step structural reductions: drop a node, drop a neighbour entry, drop a parameter."""
+    nodes, nbrs = case["nodes"], case["nbrs"]
+    for i in range(len(nodes)):
+        gone = nodes[i]
+        yield {**case, "nodes": nodes[:i] + nodes[i + 1:],
+               "nbrs": [[x for x in l if x != gone] for j, l in enumerate(nbrs) if j != i]}
+    for i, l in enumerate(nbrs):
+        for j in range(len(l)):
+            yield {**case, "nbrs": [l[:j] + l[j + 1:] if q == i else list(m) for q, m in enumerate(nbrs)]}
+    for key in list(case["params"]):
+        yield {**case, "params": {a: b for a, b in case["params"].items() if a != key}}
+    if case["k"] > 0:
+        yield {**case, "k": case["k"] - 1}
+
+
+def shrink(case, function, klass, max_rounds=40):
+    """Greedy delta debugging: keep a reduction only if the same (function, class) still fails."""
+    history = []
+    best = None
+    for _ in range(max_rounds):
+        cands = list(shrink_candidates(case))
+        if not cands:
+            break
+        outs, replies = evaluate(cands)
+        found = None
+        for c, o, rp in zip(cands, outs, replies):
+            if o[0] != "ok":
+                continue
+            pr = Probe()
+            judge(pr, c, o, rp)
+            hit = [f for f in pr.fails if f[0] == function and f[1] == klass]
+            if hit:
+                found = (c, hit[0])
+                break
+        if found is None:
+            break
+        case, best = found
+        history.append({"nodes": len(case["nodes"]), "entries": sum(len(l) for l in case["nbrs"])})
+    return case, best, history
+
+
+SHRINK_LIMIT = 6  # violations shrunk per run (each costs a few driver round trips)
+
+
+def run_cases(ctx, cases, do_shrink=True):
+    outs, replies = evaluate(cases)
+    shrunk = 0
+    for c, o, rp in zip(cases, outs, replies):
         if o[0] == "timeout":
             # attribute the timeout: run the functions one by one
             for fn, r in zip(FNS, run_pool(impl_single, [(c, fn) for fn in FNS], timeout=30.0)):
@@ -403,7 +477,16 @@ def run_cases(ctx, cases):
                     ctx.fail(fn, "timeout", f"no answer within {r[1]} s on a graph with {len(c['nodes'])} nodes",
                              {"case": c, "impl": r, "model": rp})
             continue
-        judge(ctx, c, o, rp)
+        pr = Probe(ctx)
+        judge(pr, c, o, rp)
+        for function, klass, what, rep in pr.fails:
+            if do_shrink and shrunk < SHRINK_LIMIT and ctx.known_match(function, klass) is None \
+                    and len(ctx.violations) < 20:
+                shrunk += 1
+                small, hit, history = shrink(c, function, klass)
+                if hit is not None:
+                    what, rep = hit[2], {**hit[3], "original_case": c, "shrink_history": history}
+            ctx.fail(function, klass, what, rep)
 
 
 def run(ctx, budget):
@@ -416,4 +499,4 @@ def run(ctx, budget):
 
 def replay(ctx, body):
     ctx.cov["rule"] = RULE
-    run_cases(ctx, [body["case"]])
+    run_cases(ctx, [body["case"]], do_shrink=False)
